@@ -287,6 +287,94 @@ def run_roll(name, year, rolls, stride, phase, script, spread, threshold, calend
     return msgs, rolled
 
 
+def run_pair(years, scripts, schedule, spread):
+    """Two environments over ES chains of DIFFERENT years living in one process and stepped in the given interleaving (a string of
+    0/1): each chain must be resolved at the simulation time of ITS OWN environment, whatever the other one did in between."""
+    reset_clock()
+    setups = []
+    for y in years:
+        chain = FutureChain(K.ES, datetime(y, 1, 1), datetime(y + 1, 6, 30))
+        cs = chain.contracts
+        start = as_dt(cs[0].last_trading_date) - timedelta(days=9)
+        end = as_dt(cs[0].expiry) + timedelta(days=6)
+        setups.append((chain, bdays(start, end)))
+    envs = []
+    for chain, days_ in setups:
+        evs, px = [], {}
+        for i, g in enumerate(days_):
+            for j, c in enumerate(chain.contracts):
+                if g < as_dt(c.expiry):
+                    mid = 3000.0 * (1 + 0.002 * i + 0.01 * j)
+                    px[(c.symbol, i)] = (mid - spread * 1500.0, mid + spread * 1500.0)
+                    evs.append(EventNBBO(g, c, *px[(c.symbol, i)]))
+        tr = Transmitter(list(days_))
+        tr.add_events(evs)
+        envs.append([TradingEnv(BoxPortfolio([chain], -2.0, 2.0), transmitter=tr, initial_cash=1e7), chain, days_, px, 0])
+    msgs = []
+    rolled = 0
+    for e in envs:
+        e[0].reset()
+    for who in schedule:
+        e = envs[int(who)]
+        env, chain, days_, px, k = e
+        if k + 1 >= len(days_):
+            continue
+        e[4] = k = k + 1
+        w = {0: 0.5, 1: -0.5, 2: 0.0}[scripts[int(who)][(k - 1) % len(scripts[int(who)])]]
+        D = days_[k - 1]
+        cs = chain.contracts
+        lead = ref_lead(cs, D, 0)
+        try:
+            o, r, done, info = env.step(np.array([w]))
+        except Exception as ex:
+            msgs.append("environment %s step %d (decision time %s, lead %s) raised %r" % (who, k, D, lead.symbol, ex))
+            break
+        hq = env.broker.holdings_quantity
+        for c in cs:
+            q = hq.get(c, 0.0)
+            if c is not lead and q != 0:
+                msgs.append("environment %s: after the rebalance decided at %s (lead %s) contract %s holds %r" % (who, D, lead.symbol, c.symbol, q))
+        q = hq.get(lead, 0.0)
+        rb = info.get("_rebalancing")
+        if rb is not None:
+            bid, ask = px[(lead.symbol, k - 1)]
+            if not close(q * cs[0].multiplier * (ask if w > 0 else bid), w * rb.context_pre.nlv, 1e-9):
+                msgs.append("environment %s decision at %s: position %r in lead %s does not match target %r x NLV %r at %r/%r"
+                            % (who, D, q, lead.symbol, w, rb.context_pre.nlv, bid, ask))
+        if lead is not cs[0]:
+            rolled = 1
+        if msgs:
+            break
+    return msgs, rolled
+
+
+def pair_cases(tier):
+    out = []
+    n = 12
+    scheds = ["01" * n, "0011" * (n // 2) + "01" * 4, "0" * 5 + "1" * 9 + "0" * 9 + "1" * 5, "1" * 14 + "0" * 14]
+    for years in ((2021, 2019), (2019, 2021), (2021, 2021)):
+        for sa in itertools.product(range(3), repeat=2):
+            for sb in itertools.product(range(3), repeat=2):
+                for sched in scheds:
+                    for spread in (0.0, 0.002):
+                        out.append((list(years), [list(sa), list(sb)], sched, spread))
+    return out
+
+
+def _pair_work(chunk):
+    out = {"evaluations": 0, "violations": [], "nontrivial": 0}
+    for case in chunk:
+        try:
+            msgs, rolled = run_pair(*case)
+        except Exception as e:
+            msgs, rolled = ["harness raised %r" % (e,)], 0
+        out["evaluations"] += 1
+        out["nontrivial"] += rolled
+        if msgs:
+            out["violations"].append(({"part": "pair", "case": case}, "pair %s: %s" % (case, "; ".join(msgs[:2])), ("pair", msgs[0].split(" ")[2])))
+    return out
+
+
 def roll_cases(tier):
     out = []
     classes = [("ES", 2021), ("VX", 2021)] if tier == "quick" else [("ES", 2021), ("VX", 2021), ("NK", 2021), ("ZN", 2021), ("ES", 2019)]
@@ -355,14 +443,23 @@ def run(tier, **kw):
         rolled |= r["nontrivial"]
         for case, msg, group in r["violations"]:
             rep.violation(case, msg, group=group)
+    pairs_rolled = 0
+    for r in pmap(_pair_work, shard(pair_cases(tier), 32)):
+        rep.add("evaluations", r["evaluations"])
+        rep.add("interleaved_pairs", r["evaluations"])
+        pairs_rolled += r["nontrivial"]
+        for case, msg, group in r["violations"]:
+            rep.violation(case, msg, group=group)
     rep.set("roll_episodes_that_rolled", len(rolled))
-    rep.set("distinct_nontrivial", nt + len(rolled))
+    rep.set("distinct_nontrivial", nt + len(rolled) + pairs_rolled)
     rep.set("exhaustive", True)
     rep.set("rule", "lead resolution: for 8 classes x start years x spans {1,3} years x month offsets {0,1,2}: every last-trading instant L, L-1s, L+1s, "
                     "the midpoint of every interval and one instant before the first (complete for a piecewise-constant function), each also through the "
                     "shared clock (symbol, Exchange[chain], allocation key); roll episodes: chains x stride 1-5 business days x every phase x periodic "
                     "action scripts (all 6^3 quick / 6^4 thorough over {+w,-w,0,w+small, +3%, -3%}) x spread {0, 0.2%} x threshold {0, 5%}; grids for which no step "
-                    "falls in [last trading, expiry) of some contract are outside the statement's proviso and skipped (counted); non-trivial = lead points + episodes that rolled")
+                    "falls in [last trading, expiry) of some contract are outside the statement's proviso and skipped (counted); interleaved pairs: two environments over ES chains "
+                    "(years 2021/2019, 2019/2021, same year) stepped in 4 interleavings (alternating, pairwise, blocks, one after the other) x 3^2 x 3^2 periodic scripts x spread, each chain "
+                    "resolved at its own environment's time; non-trivial = lead points + episodes that rolled")
     rep.set("samples", [{"part": "lead", "cls": "ES", "year": 2021, "span": 1, "offset": 1},
                         {"part": "roll", "case": ["ES", 2021, 1, 3, 2, [0, 1, 3], 0.002, 0.05, False]}])
     rep.assumptions = ["instants where no listed contract (plus offset) is live are outside the chain's span", "latency 0; decision time = previous grid point"]
@@ -373,6 +470,9 @@ def replay(case, **kw):
     if case["part"] == "lead":
         msgs, _ = check_lead(case["cls"], datetime(case["year"], 1, 1), datetime(case["year"] + case["span"] - 1, 12, 31), case["offset"])
         return msgs
+    if case["part"] == "pair":
+        c = case["case"]
+        return run_pair(c[0], c[1], c[2], c[3])[0]
     c = case["case"]
     msgs, _ = run_roll(c[0], c[1], c[2], c[3], c[4], tuple(c[5]), *c[6:])
     return msgs or []
